@@ -292,3 +292,24 @@ PROPS["C17"] = Prop(
     nontrivial=lambda l: " 6 " in l,
     oracle_tokens=["ORACLE_COPY_OR_MOVE_CHANGES_RESULT", "ORACLE_SOLVE_AFFECTS_ANOTHER_STATE"],
 )
+
+import errcodes2coq
+
+PROPS["C20"] = Prop(
+    "C20",
+    family_driver={"err": ("drv_errors", "asan")},
+    model_families={"err"},
+    generate=lambda rng, tier: G.gen_err(rng, tier),
+    rule="each of the 26 conditions (24 documented errors: builder x6, State setters x8, surface reaction, species "
+         "property, dense / grouped / sparse matrix x8; 2 valid-but-formerly-rejected configurations: tolerance on an "
+         "other-phase / parameterised species) injected before each of the 9 positions (quick: first, last and two random) "
+         "of a valid set / calculate / solve history, Rosenbrock and backward Euler, row-major + separate LU and grouped "
+         "L=3 + in-place LU, under ASan+UBSan; the State is compared before/after the rejected call and the history's "
+         "final result with the fault-free history bit for bit",
+    trusted=COMMON_TRUST + ["translator tools/errcodes2coq.py (regex over util/error.hpp and the enum / category blocks)",
+                            "ASan + UBSan build"],
+    translators=(errcodes2coq.generate,),
+    extra_vo=("gen/ErrCodes.v",),
+    oracle_tokens=["ORACLE_REJECTED_CALL_MODIFIED_THE_STATE", "ORACLE_OBJECTS_NOT_USABLE_AFTER_ERROR"],
+    case_timeout=600,
+)
